@@ -146,3 +146,28 @@ void h_wrap_enum(void)
 	CHECK("C01", cfg_name(&w_cfg) == w_name && cfg_name(NULL) == NULL, "cfg_name(cfg) is the context's name");
 	CANARY("wrap_enum");
 }
+
+/* an unknown name reaches the opt-level operations as a NULL option (the by-name layer passes the resolver's answer on):
+ * every one of them must fail / answer "nothing" (C09: an unknown name fails without effect) */
+#ifdef CFGV_UNIT_NULL_OPT
+void h_null_opt(void)
+{
+	unsigned idx = nondet_uint(); char t[2] = "t"; char *vals[1] = { t }; cfg_t c;
+	memset(&c, 0, sizeof c); c.name = "root";
+	CHECK("C09", cfg_opt_getnint(NULL, idx) == 0 && cfg_opt_getnfloat(NULL, idx) == 0 && cfg_opt_getnbool(NULL, idx) == cfg_false && cfg_opt_getnstr(NULL, idx) == NULL
+		&& cfg_opt_getnptr(NULL, idx) == NULL && cfg_opt_getnsec(NULL, idx) == NULL && cfg_opt_gettsec(NULL, t) == NULL && cfg_opt_size(NULL) == 0
+		&& cfg_opt_getcomment(NULL) == NULL && cfg_opt_name(NULL) == NULL, "getters on an unknown name answer zero / false / NULL");
+	CHECK("C09,C10", cfg_opt_setnint(NULL, 1, idx) == CFG_FAIL && cfg_opt_setnfloat(NULL, 1.0, idx) == CFG_FAIL && cfg_opt_setnbool(NULL, cfg_true, idx) == CFG_FAIL
+		&& cfg_opt_setnstr(NULL, t, idx) == CFG_FAIL && cfg_opt_setcomment(NULL, t) == CFG_FAIL && cfg_opt_setmulti(&c, NULL, 1, vals) == CFG_FAIL,
+		"setters on an unknown name fail");
+	CHECK("C09,C10", cfg_opt_rmnsec(NULL, idx) == CFG_FAIL && cfg_opt_rmtsec(NULL, t) == CFG_FAIL && cfg_free_value(NULL) == CFG_FAIL, "removers on an unknown name fail");
+	{
+		cfg_opt_t o; memset(&o, 0, sizeof o); o.name = "o"; o.type = CFGT_SEC; o.flags = CFGF_MULTI | CFGF_TITLE;
+		CHECK("C09,C10", cfg_opt_rmtsec(&o, NULL) == CFG_FAIL && cfg_opt_gettsec(&o, NULL) == NULL && cfg_opt_setcomment(&o, NULL) == CFG_FAIL && o.comment == NULL
+			&& cfg_opt_setmulti(&c, &o, 0, vals) == CFG_FAIL, "a missing title / annotation / value list fails without effect");
+	}
+	CHECK("C09", cfg_setopt(&c, NULL, "1") == NULL && cfg_setopt(NULL, NULL, "1") == NULL, "set-from-text on an unknown name fails");
+	CHECK("C14", call_function(NULL, NULL, NULL) == CFG_FAIL, "a function call without context, option or argument holder fails (nothing is called)");
+	CANARY("null_opt");
+}
+#endif
